@@ -563,6 +563,15 @@ find_key (const DBusString *str,
   
   if (key_start == key_end)
     {
+      if (*p != '\0')
+        {
+          /* An '=' with nothing in front of it. The caller would otherwise
+           * make no progress, and give up on the rest of the rule */
+          dbus_set_error (error, DBUS_ERROR_MATCH_RULE_INVALID,
+                          "Match rule has an empty key");
+          return FALSE;
+        }
+
       /* Empty match rules or trailing whitespace are OK */
       *value_pos = p - s;
       return TRUE;
